@@ -240,7 +240,7 @@ def gen_format_cases(rng, tier):
     def add(kind, base, code, name=None, full=False, why=""):
         cases.append({"type": "format", "kind": kind, "base": base, "code": code, "name": name, "full": full, "why": why})
 
-    full_limit = 20 if tier == "quick" else 48
+    full_limit = 20 if tier == "quick" else 64
     for n in range(301):
         code = rand_code(rng, n)
         base = BASES[n % len(BASES)] if rng.random() < 0.7 else rng.randrange(65536)
@@ -266,7 +266,7 @@ def gen_format_cases(rng, tier):
                 add(k, rng.choice(BASES), v, rand_name(rng), full=(first and k == "bk_wav") or (t == 65535 and v == variants[0]), why="sum")
             first = False
     # random images up to 4096 bytes
-    for i in range(10 if tier == "quick" else 120):
+    for i in range(10 if tier == "quick" else 400):
         n = rng.choice([301, 512, 1000, 1024, 2048, 4095, 4096, rng.randrange(301, 4097)])
         code = rand_code(rng, n)
         k = ["bk_wav", "bk_turbo_wav"][i % 2]
@@ -476,7 +476,7 @@ def gen_cli_cases(rng, tier):
     add([("proj/src/one.mac", []), ("proj/lib/two.mac", [("make_bin", "out/b.bin", None), ("make_wav", None, None)])])
     add([("proj/src/one.mac", [("make_raw", None, None)]), ("proj/lib/two.mac", [("make_raw", None, None)])], cwd="proj/lib")
     add([("proj/src/one.mac", []), ("proj/lib/two.mac", [])], implicit=True)
-    n = 0 if tier == "quick" else 120
+    n = 0 if tier == "quick" else 300
     for _ in range(n):
         d = rng.choice(list(DIRS))
         p = rng.choice([None, "o", "sub/o.wav", "../q/o.bin", "ABS:/o/r", "o.WAV"])
@@ -622,7 +622,7 @@ def cli_term(s_, o, model):
 
 
 def cli_input(s_, o):
-    return {"type": "cli", "scenario": {k: (v.hex() if isinstance(v, bytes) else v) for k, v in s_.items()},
+    return {"type": "cli", "scenario": {k: (v.hex() if isinstance(v, bytes) else v) for k, v in s_.items() if k != "obs"},
             "argv": o.get("argv"), "cwd": o.get("cwd"), "sources": [[p, t] for p, t in o.get("files", [])],
             "exit": o.get("exit"), "found": {p: (d.hex() if len(d) <= 400 else "sha1:" + hashlib.sha1(d).hexdigest() + " len=%d" % len(d)) for p, d in o.get("found", {}).items()},
             "expected": [[p, k, nm.hex() if nm else None] for p, k, nm in (o.get("expected") or [])] if o.get("expected") is not None else "must fail, no files",
